@@ -78,6 +78,12 @@ instance (c : Cfg) (cpu : Cpu) (b : Backend) : Decidable (Permitted c cpu b) := 
 def NoSimdPermitted (c : Cfg) (cpu : Cpu) : Prop :=
   ¬ Permitted c cpu .avx ∧ ¬ Permitted c cpu .sse ∧ ¬ Permitted c cpu .neon ∧ ¬ Permitted c cpu .wasm
 
+instance (c : Cfg) (cpu : Cpu) : Decidable (NoSimdPermitted c cpu) := by
+  unfold NoSimdPermitted; infer_instance
+
+def Backend.ofTag? : Nat → Option Backend
+  | 0 => some .portable | 1 => some .avx | 2 => some .sse | 3 => some .neon | 4 => some .wasm | _ => none
+
 /-- a compile-time target feature implies the CPU has it (otherwise the binary is not runnable) -/
 def Cpu.Runs (c : Cfg) (cpu : Cpu) : Prop :=
   (c.tfAvx2 = true → cpu.avx2 = true) ∧ (c.tfSse41 = true → cpu.sse41 = true)
